@@ -277,7 +277,7 @@ func c07Jobs(c *ctx) (small []iso.Job, large []iso.Job) {
 }
 
 func runC07(c *ctx) {
-	c.Rule = "inputs run in child worker processes (ulimit -v 4 GiB, watchdog); oracle: no panic escapes hsms.Parse, the worker does not abort, the decoder's item-step counter (hook H3) stays within len(input)+2, TotalAlloc delta <= 1 MiB + 2048*len(input). Families: every format x 1/2/3 length bytes x declared length {0,1,255,256,65535,65536,2^24-1} x bytes present {0,1,declared-1,declared} at list depth {0,1,2,7,64} inside over-declaring lists; long legitimate items; long items of every format with hostile payload patterns (0x00, 0x7F, 0x80, 0xFF, alternating 7/8-bit, pseudo-random, quote/backslash/line-break/UTF-8 runs, 8-bit second half); lists of many small items of every format; generated legitimate trees up to ~1 MB; nested lists each declaring the largest count the remaining bytes allow; closed/unclosed one-element list chains; every single-point fault of seed encodings (the C03 enumerator); random bytes behind a correct length prefix; the deep-chain probe. non-trivial = input declares a length larger than the bytes that follow, or is >= 4 KiB; distinct by hash"
+	c.Rule = "inputs run in child worker processes (ulimit -v 4 GiB, watchdog); oracle: no panic escapes hsms.Parse, the worker does not abort, the decoder's item-step counter (hook H3) stays within len(input)+2, TotalAlloc delta <= 1 MiB + 2048*len(input). Families: every format x 1/2/3 length bytes x declared length {0,1,255,256,65535,65536,2^24-1} x bytes present {0,1,declared-1,declared} at list depth {0,1,2,7,64} inside over-declaring lists; long legitimate items; long items of every format with hostile payload patterns (0x00, 0x7F, 0x80, 0xFF, alternating 7/8-bit, pseudo-random, quote/backslash/line-break/UTF-8 runs, 8-bit second half); lists of many small items of every format; generated legitimate trees up to ~1 MB; nested lists each declaring the largest count the remaining bytes allow; closed/unclosed one-element list chains; every single-point fault of seed encodings (the C03 enumerator); random bytes behind a correct length prefix; seven 1 KiB messages (refused after part was decoded, and accepted) each repeated thousands of times in one worker process (per-call allocation must not depend on history); the deep-chain probe. non-trivial = input declares a length larger than the bytes that follow, or is >= 4 KiB; distinct by hash"
 	c.Assume = []string{"runtime.MemStats.TotalAlloc measures the memory allocated during one call in a single-goroutine worker", "the bound's constants (1 MiB + 2048 B/byte) are ~4x the most expensive legitimate construct measured on this tree"}
 
 	small, large := c07Jobs(c)
@@ -388,6 +388,21 @@ func runC07(c *ctx) {
 		defer wg.Done()
 		outs[nw+1] = iso.Run(iso.Options{Exe: exe, Kind: "hsms", Dir: filepath.Join(work, "probe"), VMemKB: 6 << 20, Watchdog: 30 * time.Minute, MaxRestart: 1}, probe)
 	}()
+	// the same few inputs again and again in one worker process: what one call allocates must not depend on what earlier
+	// calls left behind (pooled parsers, scratch stacks, caches) - same per-call bound, the workload supplies the history
+	var history []iso.Job
+	for _, in := range c07HistoryInputs() {
+		for k := 0; k < c.pick(2500, 12000); k++ {
+			history = append(history, iso.Job{Input: in, Family: "repeat-in-one-process", Meta: "repeat"})
+		}
+	}
+	wg.Add(1)
+	outs = append(outs, iso.Outcome{})
+	jobsOf = append(jobsOf, history)
+	go func() {
+		defer wg.Done()
+		outs[nw+2] = iso.Run(iso.Options{Exe: exe, Kind: "hsms", Dir: filepath.Join(work, "history"), VMemKB: 4 << 20, Watchdog: 20 * time.Minute, MaxRestart: 3}, history)
+	}()
 	wg.Wait()
 
 	for s, o := range outs {
@@ -421,7 +436,42 @@ func runC07(c *ctx) {
 			c.Sample(map[string]interface{}{"family": j.Family, "len": len(j.Input), "input": hex.EncodeToString(clipB(j.Input))})
 		}
 	}
-	c.Required = []string{"hook-H3-reached", "family/declared-vs-present", "family/single-point-fault", "family/long-item", "family/long-item-payload-patterns", "family/many-small-items", "family/generated-tree", "family/closed-chain", "family/nest-with-leaf-per-level", "family/nest-around-a-large-item", "family/greedy-nested-lists", "family/random", "accepted", "rejected"}
+	c.Required = []string{"hook-H3-reached", "family/declared-vs-present", "family/single-point-fault", "family/long-item", "family/long-item-payload-patterns", "family/many-small-items", "family/generated-tree", "family/closed-chain", "family/nest-with-leaf-per-level", "family/nest-around-a-large-item", "family/greedy-nested-lists", "family/random", "family/repeat-in-one-process", "accepted", "rejected"}
+}
+
+// c07HistoryInputs: messages that are refused after part of their content was decoded (in a list, in a nested list,
+// at the very end), and accepted ones, about 1 KiB each.
+func c07HistoryInputs() [][]byte {
+	var out [][]byte
+	u1 := []byte{0xA5, 0x01, 0x07}
+	many := func(n int) []byte { return bytes.Repeat(u1, n) }
+	// a list of 250 items whose last item is cut short
+	out = append(out, wrapMsg(append(append([]byte{0x01, 251}, many(250)...), 0xA5, 0x05, 0x01)))
+	// a list that declares 255 items and holds 250
+	out = append(out, wrapMsg(append([]byte{0x01, 255}, many(250)...)))
+	// nested: list of 20 lists of 12 items, the last inner list ends in an 8-bit ASCII item
+	{
+		body := []byte{0x01, 20}
+		for i := 0; i < 20; i++ {
+			body = append(body, 0x01, 13)
+			body = append(body, many(12)...)
+			if i == 19 {
+				body = append(body, 0x41, 0x02, 'a', 0xE9)
+			} else {
+				body = append(body, 0x41, 0x02, 'a', 'b')
+			}
+		}
+		out = append(out, wrapMsg(body))
+	}
+	// a complete list followed by one stray byte (message length says so)
+	out = append(out, wrapMsg(append(append([]byte{0x01, 250}, many(250)...), 0x00)))
+	// non-finite float at the end of a list
+	out = append(out, wrapMsg(append(append([]byte{0x01, 251}, many(250)...), 0x91, 0x04, 0x7F, 0x80, 0x00, 0x00)))
+	// accepted: the same list, complete
+	out = append(out, wrapMsg(append([]byte{0x01, 250}, many(250)...)))
+	// accepted: one ASCII item of 1000 characters
+	out = append(out, wrapMsg(append([]byte{0x42, 0x03, 0xE8}, bytes.Repeat([]byte("x"), 1000)...)))
+	return out
 }
 
 func firstLines(s string, n int) string {
@@ -454,6 +504,11 @@ func replayC07(c *ctx, raw json.RawMessage) {
 	work, _ := os.MkdirTemp("", "c07replay")
 	defer os.RemoveAll(work)
 	jobs := []iso.Job{{Input: in, Family: cs.Family, Meta: cs.Recipe}}
+	if cs.Family == "repeat-in-one-process" {
+		for k := 0; k < 12000; k++ {
+			jobs = append(jobs, jobs[0])
+		}
+	}
 	o := iso.Run(iso.Options{Exe: exe, Kind: "hsms", Dir: work, VMemKB: 6 << 20, Watchdog: 30 * time.Minute, MaxRestart: 1}, jobs)
 	for _, f := range o.Findings {
 		c.Violation(f.Sig, f.What, cs)
